@@ -305,6 +305,40 @@ def load_known():
         return json.load(f)
 
 
+def start_memory_watchdog(ctx, limit_gb=None):
+    """The harness itself needs well under 2 GB. If this process grows beyond the limit, the code under test is producing items
+    without end (a framer that no longer advances, a listing that grows for ever): that is reported as a violation of the property
+    being checked - with what was recorded so far - instead of letting the kernel kill arbitrary processes."""
+    import threading
+    limit = int(float(os.environ.get("VERIF_RSS_LIMIT_GB", limit_gb or 12)) * (1 << 30))
+    page = os.sysconf("SC_PAGE_SIZE")
+
+    def watch():
+        while True:
+            time.sleep(0.5)
+            try:
+                with open("/proc/self/statm") as f:
+                    rss = int(f.read().split()[1]) * page
+            except Exception:  # noqa: BLE001
+                return
+            if rss > limit:
+                try:
+                    rdir = os.path.join(VERIF, "replays", ctx.pid)
+                    os.makedirs(rdir, exist_ok=True)
+                    path = os.path.join(rdir, "runaway-memory.json")
+                    with open(path, "w") as f:
+                        json.dump({"property": ctx.pid, "signature": f"{ctx.pid}/runaway",
+                                   "detail": f"the check process grew beyond {limit >> 30} GB while exercising the library: the code under test "
+                                             "yields / accumulates without end", "violations_recorded_before": [v["signature"] for v in ctx.violations][:20]}, f)
+                    sys.stdout.write(f"VIOLATION property={ctx.pid} replay={path}\n  signature: {ctx.pid}/runaway\n"
+                                     f"check {ctx.pid} tier={ctx.tier} seed={ctx.seed} exit=1\n")
+                    sys.stdout.flush()
+                finally:
+                    os._exit(1)
+    t = threading.Thread(target=watch, daemon=True)
+    t.start()
+
+
 def finish(ctx, level="model_checking"):
     """Print verdict lines, write evidence, return exit code."""
     known = [k for k in load_known().get("known", []) if k["property"] == ctx.pid]
